@@ -434,11 +434,11 @@ Lemma unmarshal_t_var_eq vf be x c : unmarshal_t (S vf) be (EVar x) c =
   | Ok [t'] =>
       do c1 <- u_align (align t') (snd r);
       do c2 <- u_enter c1;
-      do n <- validate 66 be (udepth c2) (uoff c1) (ubuf c1) t';
-      do s <- u_sub n c1;
+      do n <- validate 66 be (udepth c2) (uoff c2) (ubuf c2) t';
+      do s <- u_sub n c2;
       if ty_eqb t' (erase x) then
         do v <- unmarshal_t vf be x (fst s);
-        Ok (VVariant t' (fst v), snd s)
+        Ok (VVariant t' (fst v), u_leave (snd s))
       else Err
   | _ => Err
   end.
@@ -900,10 +900,10 @@ Lemma unmarshal_t_var_eq' vf be x c : unmarshal_t (S vf) be (EVar x) c =
       do c1 <- u_align (align t') (snd r);
       if MAX_DEPTH <=? udepth c1 then Err else
       do n <- validate 66 be (udepth c1 + 1) (uoff c1) (ubuf c1) t';
-      do s <- u_sub n c1;
+      do s <- u_sub n {| ubuf := ubuf c1; uoff := uoff c1; unfds := unfds c1; udepth := udepth c1 + 1 |};
       if ty_eqb t' (erase x) then
         do v <- unmarshal_t vf be x (fst s);
-        Ok (VVariant t' (fst v), snd s)
+        Ok (VVariant t' (fst v), u_leave (snd s))
       else Err
   | _ => Err
   end.
